@@ -80,7 +80,7 @@ def render(v, val):
         return "B", format(val, "0%db" % v.width)
     if v.kind == "real":
         return "R", "%016x" % struct.unpack("<Q", struct.pack("<d", val))[0]
-    return "S", val.hex() if val else "-"
+    return "S", val.decode("utf-8", "replace").encode().hex() if val else "-"      # String::from_utf8_lossy
 
 
 def enc_str(v):
@@ -529,10 +529,10 @@ class GhwTypes:
 def ghw_type_of(tt, v):
     if v.kind == "logic":
         e = tt.std_ulogic()
-        return e if v.rng is None else tt.vector(e, v.extra.get("type_name", "std_logic_vector"), v.rng[0], v.rng[1])
+        return e if v.rng is None else tt.vector(e, v.extra.get("type_name", "std_logic_vector"), v.rng[0], v.rng[1], name=v.extra.get("subtype_name"))
     if v.kind == "bit":
         e = tt.bit()
-        return e if v.rng is None else tt.vector(e, v.extra.get("type_name", "bit_vector"), v.rng[0], v.rng[1])
+        return e if v.rng is None else tt.vector(e, v.extra.get("type_name", "bit_vector"), v.rng[0], v.rng[1], name=v.extra.get("subtype_name"))
     if v.kind == "int":
         return tt.integer()
     if v.kind == "real":
@@ -740,6 +740,8 @@ def expected_wfull(items, fmt, ts="1e-15", time_table=None):
                                                                 idx, handles[i], en, hx(vh), chs))
             else:
                 tn = it.extra.get("type_name")
+                if it.rng is not None and it.extra.get("subtype_name"):
+                    tn = it.extra["subtype_name"]          # a named constrained subtype: its own name wins over the base type's
                 if it.kind == "logic":
                     tn = tn or ("std_ulogic" if it.rng is None else "std_logic_vector")
                     vt = {"std_ulogic": "StdULogic", "std_logic": "StdLogic", "std_ulogic_vector": "StdULogicVector",
